@@ -116,6 +116,49 @@ pub fn chrono_format_routes(fmt: &str, v: &V) -> Result<Vec<(&'static str, Resul
     Ok(out)
 }
 
+/// two deprecated routes with their own expectations: the free function prints the zone *name* it is
+/// handed for %Z, and the deprecated `Date<Tz>` formats the date it holds whatever its offset
+#[allow(deprecated)]
+pub fn deprecated_route_checks(fmt: &str, v: &V, main: &Result<String, ()>) -> Result<(), String> {
+    use chrono::format::{Item, StrftimeItems};
+    use chrono::TimeZone;
+    struct Shim<'a> { nt: chrono::NaiveTime, off: (String, FixedOffset), items: &'a [Item<'a>], each: bool }
+    impl std::fmt::Display for Shim<'_> {
+        fn fmt(&self, f: &mut std::fmt::Formatter) -> std::fmt::Result {
+            if self.each {
+                for it in self.items { chrono::format::format_item(f, None, Some(&self.nt), Some(&self.off), it)?; }
+                Ok(())
+            } else {
+                chrono::format::format(f, None, Some(&self.nt), Some(&self.off), self.items.iter())
+            }
+        }
+    }
+    if v.kind == 3 {
+        let items: Vec<Item> = StrftimeItems::new("%H|%Z|%M").collect();
+        let fo = FixedOffset::east_opt(v.off).ok_or("harness: offset")?;
+        let nt = v.t.build()?;
+        for each in [false, true] {
+            let mut a = String::new();
+            call("format::format with a zone name", || write!(a, "{}", Shim { nt, off: ("XYZ".to_string(), fo), items: &items, each }))?.map_err(|_| "format::format failed on %H|%Z|%M")?;
+            ensure_eq!(a, format!("{:02}|XYZ|{:02}", v.t.secs / 3600, v.t.secs / 60 % 60), "format::format{} with the zone name XYZ", if each { "_item" } else { "" });
+        }
+    }
+    if v.kind == 0 && cal::in_range_day(v.day) {
+        if let Ok(text) = main {
+            let d = conv::date(v.day);
+            for off in [-18_000, 34_200, 0] {
+                let fo = FixedOffset::east_opt(off).ok_or("harness: offset")?;
+                if let Some(zd) = fo.from_local_date(&d).single() {
+                    let mut a = String::new();
+                    let r = call("Date<Tz>::format", || write!(a, "{}", zd.format(fmt)))?;
+                    ensure_eq!(r.map(|_| a).map_err(|_| ()), Ok(text.clone()), "Date<FixedOffset>({off})::format({fmt:?}) of day {} vs NaiveDate::format", v.day);
+                }
+            }
+        }
+    }
+    Ok(())
+}
+
 pub fn model_val(v: &V) -> Val {
     Val {
         day: if v.kind != 1 { Some(v.day) } else { None },
@@ -178,6 +221,7 @@ impl SubCheck for Format {
                 ensure_eq!(got, Ok(e.clone()), "format({:?}) on {v:?}", c.fmt);
             }
         }
+        deprecated_route_checks(&c.fmt, v, &got)?;
         // every other public route writes the same text (or fails as well)
         if exp != Out::Unspecified {
             for (route, r) in chrono_format_routes(&c.fmt, v)? {
